@@ -470,6 +470,9 @@ func prepareConc(seed uint64, id int) *concPlan {
 	r := newRng(seed ^ uint64(id)*0x9e37)
 	s := genStreamScenario(r, fmt.Sprintf("c%d", id), r.rangeInt(2, 6), 3)
 	p := &concPlan{id: id, stream: buildStream(s.Units, s.Pkts, s.PMTPIDs, s.Seed, true).bytes}
+	// ... followed by DVB tables of every kind with descriptors of every tag (dates and times, language codes, texts): package-level state
+	// of any of their parsers would be shared by the workers
+	p.stream = append(p.stream, richStream(r, 10)...)
 	for k := 0; k < 12; k++ {
 		p.mux = append(p.mux, &astits.MuxerData{PID: uint16(256 + id%8), PES: &astits.PESData{Header: buildPESHeader("pts", 0, r), Data: r.bytes(r.pick(5, 184, 500))}})
 	}
